@@ -557,6 +557,34 @@ func Scribble(r *shapes.Rec) {
 		r.MI["scribbled"] = []*shapes.Inner{{S: "scribbled"}}
 	}
 	scribbleAny(r.Any)
+	scrLine := func(l *shapes.Line) {
+		l.Name = "scribbled"
+		for i := range l.Tags {
+			l.Tags[i] = "scribbled"
+		}
+		for k := range l.Attrs {
+			l.Attrs[k] = -7
+		}
+		if l.Attrs != nil {
+			l.Attrs["scribbled"] = -7
+		}
+		if l.Qty != nil {
+			*l.Qty = -7
+		}
+		if l.Sub != nil {
+			l.Sub.N, l.Sub.S = -7, "scribbled"
+		}
+	}
+	for i := range r.LS {
+		scrLine(&r.LS[i])
+	}
+	for i := range r.AR {
+		scrLine(&r.AR[i])
+	}
+	for k, l := range r.MS {
+		scrLine(&l) // the copy shares Tags / Attrs / Qty / Sub with the map value
+		_ = k
+	}
 	r.Lid = -r.Lid - 100000
 }
 
